@@ -463,3 +463,89 @@ Theorem C07_digit_from_ascii_table : forall r c, 0 <= c < 256 ->
   digit_from_ascii r c = match table_digit c with Some d => if d <? r then Some d else None | None => None end.
 Proof. exact digit_from_ascii_table256. Qed.
 Print Assumptions C07_digit_from_ascii_table.
+
+(* ================================================================================================================ *)
+(** * round 4 *)
+From Dashu Require Import Int.IoToChunksModel Int.IoToChunks Int.IoDebugLwbModel Int.IoDebugLwb Int.IoDispatch4Model Int.IoDispatch4Proofs.
+From Dashu Require Int.GrlModel.
+From DashuGen Require Import IoDispatch4.
+
+(** convert.rs words_to_chunks / TypedReprRef::to_chunks (RefLarge) on word lists: the zeroed buffers of
+    ceil(chunk_bits / WORD_BITS) + 1 words, both loops (word aligned: slices; general: window copy, `&= ones_word(end_bits)`,
+    C09's shr_in_place).  Every word size, every normalised word array, every chunk width: total - no slice bound is exceeded,
+    no copy_from_slice length mismatch, no usize underflow, `debug_assert!(start < end)` holds - and the buffers denote the
+    specification chunks *)
+Theorem C07_to_chunks_large_words : forall w, 0 < w -> forall words cb,
+  Words.wf w words -> words <> [] -> last words 0 <> 0 -> 0 < cb ->
+  exists cs, to_chunks_large_words w words cb = Ok cs /\ Forall (Words.wf w) cs /\
+    map (Words.value w) cs = to_chunks_spec (Words.value w words) cb.
+Proof. exact to_chunks_large_words_correct. Qed.
+Print Assumptions C07_to_chunks_large_words.
+
+(** UBig::to_chunks over those loops (double-word values: shift and mask): the specification, for every value *)
+Theorem C07_to_chunks_words : forall w, 0 < w -> forall v cb, 0 <= v -> 0 < cb ->
+  to_chunks_words_z w v cb = Ok (to_chunks_spec v cb).
+Proof. exact to_chunks_words_z_correct. Qed.
+Print Assumptions C07_to_chunks_words.
+
+(** log::repr::log_word_base (C12's as-is model GrlModel.log_word_base_asis: assertion, whole-word stage, digit stage, one
+    division back) is TOTAL within bit length + 1 rounds for every estimate that passes its assertion, and returns the floor
+    logarithm with its power (C12_log_word_base_asis_correct is the second half) *)
+Theorem C07_log_word_base_total : forall w target base wexp est,
+  0 < w -> 2 <= base -> 1 <= target -> 1 <= wexp -> base ^ wexp < 2 ^ w -> 2 <= GrlModel.wlen w target -> 0 <= est -> base ^ est <= target ->
+  exists e, GrlModel.log_word_base_asis (lwb_fuel target) w est wexp target base = Ok (e, base ^ e) /\ ilog_cert target base e = true.
+Proof. exact lwb_fuel_suffices. Qed.
+Print Assumptions C07_log_word_base_total.
+
+(** the Debug printer with log_word_base INSIDE the model (no hypothesis on the logarithm any more; what remains is the f32
+    estimate, any value that passes the code's own `assert!(est_pow <= target)`): it prints the specification *)
+Theorem C07_debug_log_word_base : forall w est plus alt v, 8 <= w -> w mod 2 = 0 ->
+  (forall m, Bw w * Bw w <= m -> 0 <= est m /\ 10 ^ est m <= m) ->
+  blen (Z.abs v) < Bw w ->
+  debug_lwb_asis w gen_dbg_lits est plus alt v = Ok (debug_spec (fst (radix_info w 10)) (Bw w * Bw w) plus alt v).
+Proof. exact debug_lwb_asis_correct. Qed.
+Print Assumptions C07_debug_log_word_base.
+
+(** ... satisfiable: the instance the oracle runs (exact exponent lowered by 0..40: both correction loops run) *)
+Theorem C07_debug_log_word_base_run : forall w plus alt v, 8 <= w -> w mod 2 = 0 -> blen (Z.abs v) < Bw w ->
+  debug_lwb_asis w gen_dbg_lits est_under plus alt v = Ok (debug_spec (fst (radix_info w 10)) (Bw w * Bw w) plus alt v).
+Proof. exact debug_lwb_asis_under. Qed.
+Print Assumptions C07_debug_log_word_base_run.
+
+(** the DISPATCH of the converters REGENERATED from parse/*.rs and fmt/*.rs (coq/gen/IoDispatch4.v: which parser / printer for
+    which radix, which path for which length / representation, chunk_bytes, the `while` condition of the parser's squaring loop,
+    the split point and the "goes down undivided" test of parse_large_divide_conquer, the length shortcut of the printer's
+    squaring loop, CHUNK_LENs, the width formula of the power-of-two printer): the converters read through the generated
+    functions are the hand transcription, for every word size, radix, magnitude and text ... *)
+Theorem C07_dispatch_print_eq : forall w, 0 <= w -> forall r x, 2 <= r -> digits_gen w r x = digits_asis w r x.
+Proof. exact digits_gen_eq. Qed.
+Print Assumptions C07_dispatch_print_eq.
+
+Theorem C07_dispatch_parse_eq : forall w r s, body_gen w r s = body_asis w r s.
+Proof. exact body_gen_eq. Qed.
+Print Assumptions C07_dispatch_parse_eq.
+
+Theorem C07_dispatch_parse_dc : forall w r cb ps s, parse_dc_gen w r cb ps s = parse_dc w r cb ps s.
+Proof. exact parse_dc_gen_eq. Qed.
+Print Assumptions C07_dispatch_parse_dc.
+
+Theorem C07_dispatch_parse_powers : forall fuel cb n ps, parse_powers_gen fuel cb n ps = parse_powers fuel cb n ps.
+Proof. exact parse_powers_gen_eq. Qed.
+Print Assumptions C07_dispatch_parse_powers.
+
+Theorem C07_dispatch_fmt_powers : forall w fuel x ps, fmt_powers_gen w fuel x ps = fmt_powers w fuel x ps.
+Proof. exact fmt_powers_gen_eq. Qed.
+Print Assumptions C07_dispatch_fmt_powers.
+
+Theorem C07_dispatch_p2_width : forall lr x, 0 < lr -> gen4_p2_width (blen x) lr = p2_width lr x.
+Proof. exact p2_width_gen_eq. Qed.
+Print Assumptions C07_dispatch_p2_width.
+
+(** ... hence print the specification digits and parse to the specification value / error kind *)
+Theorem C07_dispatch_print : forall w r x, 0 < w -> w mod 2 = 0 -> 2 <= r -> r < Bw w -> 0 <= x -> digits_gen w r x = digits_spec r x.
+Proof. exact digits_gen_correct. Qed.
+Print Assumptions C07_dispatch_print.
+
+Theorem C07_dispatch_parse : forall w r s, 0 < w -> w mod 2 = 0 -> 2 <= r -> r < Bw w -> body_gen w r s = body_spec r s.
+Proof. exact body_gen_correct. Qed.
+Print Assumptions C07_dispatch_parse.
